@@ -276,7 +276,25 @@ pub fn run_generic_auth(out: &mut Out, tier: &str, rng: &mut Rng, what: &str) {
                     h.frame(&raw_of(make_id(rng.below(8) as u8, pgn, *rng.pick(&[0x27u8, 0xFF]), rng.byte()), &data));
                 }
                 5 | 6 => h.cycle(),
-                7 => h.motion(&fmt::rand_motion(rng)),
+                7 => {
+                    // now and then the degenerate commands: an empty change set, the same actuator twice
+                    let m = match rng.below(6) {
+                        0 => Motion::Change(vec![]),
+                        1 => {
+                            let a = glonax::core::Actuator::Boom;
+                            let mut c = vec![];
+                            for v in [rng.range(-32768, 32767) as i16, 0] {
+                                if let Motion::Change(mut x) = Motion::new(a, v) {
+                                    c.append(&mut x);
+                                }
+                            }
+                            Motion::Change(c)
+                        }
+                        _ => fmt::rand_motion(rng),
+                    };
+                    h.motion(&m);
+                    h.cycle();
+                }
                 8 => h.engine(&Engine { driver_demand: 0, actual_engine: 0, rpm: *rng.pick(&[0u16, 700, 805, 1234, 1500, 1999, 2100, 3000]), state: *rng.pick(&[EngineState::NoRequest, EngineState::Starting, EngineState::Stopping, EngineState::Request]) }),
                 _ => h.motion(&Motion::StopAll),
             }
